@@ -39,7 +39,8 @@ Rec(rq) == [rq |-> rq,
             ro |-> readOnly']
 Step(rq) == Do(rq) /\ h' = Append(h, Rec(rq))
 
-GInit == Init /\ h = <<>> /\ phase = "run" /\ sid \in (IF Flavour = "script" THEN 1..13 ELSE {0})
+ScriptIds == CASE Role = "replica" -> {14, 15} [] Role = "primary" -> {16} [] OTHER -> 1..13
+GInit == Init /\ h = <<>> /\ phase = "run" /\ sid \in (IF Flavour = "script" THEN ScriptIds ELSE {0})
 
 -----------------------------------------------------------------------------
 (* random requests *)
@@ -169,7 +170,27 @@ Scripts == <<
   Fill \o << [Q("begin") EXCEPT !.ro = FALSE], Tx("txput", 1, <<2, 1>>, "v2"), Tx("txdel", 1, <<1, 2>>, ""),
              Tx("txput", 1, KMax, "v1"), Tx("txput", 1, <<1>>, "v3") >>,
   \* 13: node information, statistics, maintenance
-  << Q("nodeinfo"), Q("stats"), [Q("put") EXCEPT !.k = K1, !.v = "v1"], Q("compact"), Q("stats"), Q("nodeinfo") >>
+  << Q("nodeinfo"), Q("stats"), [Q("put") EXCEPT !.k = K1, !.v = "v1"], Q("compact"), Q("stats"), Q("nodeinfo") >>,
+  \* 14 (replica): every client mutator of the network API is refused, reads are served, the node says what it is
+  << Q("nodeinfo"), [Q("put") EXCEPT !.k = K1, !.v = "v1"], [Q("del") EXCEPT !.k = K1], B(<<BOp("put", K1, "v1"), BOp("del", K2, "")>>, 0),
+     B(<<BOp("put", K1, "v1")>>, MaxBatch - 1), B(<<>>, 0), [Q("get") EXCEPT !.k = K1], Sc(<<>>, <<>>, <<>>, <<>>, 0),
+     [Q("begin") EXCEPT !.ro = FALSE], Tx("txput", 1, K1, "v1"), Tx("txdel", 1, K1, ""), Tx("txget", 1, K1, ""), [Q("txscan") EXCEPT !.h = 1],
+     Tx("commit", 1, <<>>, ""), [Q("begin") EXCEPT !.ro = TRUE], Tx("txput", 2, K2, "v2"), Tx("rollback", 2, <<>>, ""),
+     Q("compact"), Q("stats"), Q("nodeinfo") >>,
+  \* 15 (replica, in-process): replicated operations keep arriving between refused client writes, through both APIs; the
+  \* mode switch is consulted at every call
+  << [Q("apply_put") EXCEPT !.k = K1, !.v = "v1"], [Q("get") EXCEPT !.k = K1], [Q("put") EXCEPT !.k = K1, !.v = "v2"],
+     [Q("apply_merge") EXCEPT !.k = K2, !.v = "v2"], [Q("del") EXCEPT !.k = K2], [Q("put") EXCEPT !.via = "emb", !.k = K3, !.v = "v3"],
+     [Q("apply_batch") EXCEPT !.ops = <<BOp("put", K3, "v3"), BOp("del", K2, "")>>],
+     [B(<<BOp("del", K3, "")>>, 0) EXCEPT !.via = "emb"], B(<<BOp("del", K3, "")>>, 0), [Q("del") EXCEPT !.via = "emb", !.k = K1],
+     [Q("begin") EXCEPT !.ro = FALSE], Tx("txput", 1, K1, "v3"), Tx("txget", 1, K1, ""), [Q("apply_del") EXCEPT !.k = K1],
+     Tx("txget", 1, K1, ""), [Q("txscan") EXCEPT !.h = 1], Tx("commit", 1, <<>>, ""),
+     [Q("begin") EXCEPT !.via = "emb", !.ro = FALSE], [Tx("txput", 2, K1, "v1") EXCEPT !.via = "emb"], [Tx("txdel", 2, K3, "") EXCEPT !.via = "emb"],
+     [Tx("txget", 2, K3, "") EXCEPT !.via = "emb"], [Tx("commit", 2, <<>>, "") EXCEPT !.via = "emb"], [Q("scan") EXCEPT !.via = "emb"],
+     Q("nodeinfo"), [Q("setro") EXCEPT !.ro = FALSE], Q("nodeinfo"), [Q("put") EXCEPT !.k = K1, !.v = "v2"],
+     [Q("setro") EXCEPT !.ro = TRUE], [Q("put") EXCEPT !.k = K1, !.v = "v3"], Q("nodeinfo"), [Q("get") EXCEPT !.k = K1] >>,
+  \* 16 (primary): the node says so and takes writes
+  << Q("nodeinfo"), [Q("put") EXCEPT !.k = K1, !.v = "v1"], [Q("get") EXCEPT !.k = K1], Q("nodeinfo") >>
 >>
 SweepScripts == {11, 12}
 
